@@ -669,7 +669,11 @@ def c09(tier, seed):
             L.do('dset c1 %s 0 3' % t)
         srcs = ['c0']
         if ctor in ('copy', 'deepcopy', 'flag', 'json'):
+            if ctor == 'deepcopy' and L.toks('c0'):
+                L.do('dset c0 %s 2 %d' % (rng.choice(L.toks('c0')), rng.choice([1002, 1003, 1010])))
             L.do('%s c0 r' % ctor)
+            if ctor == 'deepcopy':
+                L.do('!deepnested c0 r'); L.do('!sameobs c0 r')
             if ctor != 'flag':
                 L.do('!samecontent c0 r')
                 if ctor != 'json':
@@ -705,8 +709,15 @@ def c09(tier, seed):
     for j in range(400 if tier == 'quick' else 4000):
         g = FiltGen(seed * 389 + j, POOL_NAMES[j % len(POOL_NAMES)])
         g.run(rng.randrange(4, 14))
-        kind = j % 3
-        if kind == 0:
+        kind = j % 4
+        if kind == 3:
+            # deepcopy keeps the sharing of dict objects inside one complex; only generated when no two simplices share
+            f = g.F()
+            ids = [id(B.getAttributes(f, x)) for x in B.simplices(f)]
+            if len(set(ids)) != len(ids):
+                continue
+            g.do('setidx f %d' % rng.choice(IDX)); g.do('deepcopy f r'); g.do('!sameobs f r'); g.do('obs r')
+        elif kind == 0:
             g.do('snap f r'); g.do('!samecontent f r')
         elif kind == 1:
             order = g.copy_order()
@@ -757,7 +768,10 @@ def c10(tier, seed):
         L = Live(pool, 'C10 perturbation seed=%d/%d' % (seed, j))
         fam = rng.choice(f4)
         L.many(build_lines(fam, 'c0'))
-        L.do('copy c0 c1'); L.do('!cmp c0 c1'); L.do('q c0 eq c1'); L.do('q c1 le c0')
+        if j % 3 == 0 and L.toks('c0'):
+            # rejected requests must not disturb later comparisons
+            L.do('add c0 %s [] -' % rng.choice(L.toks('c0'))); L.do('add c0 u996 [u997,u998] -')
+        L.do('copy c0 c1'); L.do('!cmp c0 c1'); L.do('q c0 eq c1'); L.do('q c1 le c0'); L.do('q c1 lt c0')
         names = L.toks('c1')
         kind = j % 5
         if kind == 4:
@@ -1068,6 +1082,8 @@ def c15(tier, seed):
             L.many(base)
             L.do('q c0 betti'); L.do('!snap c0')
             res = L.do('relabel c0 ' + rs)
+            if not (set(ren.values()) & set(names)) and len(set(ren.values())) == len(ren):
+                L.do('!lastok a_renaming_onto_distinct_unused_names')
             if res.startswith('ok'):
                 L.do('!post-relabel c0 ' + rs)
             L.do('obs c0'); L.do('q c0 betti')
@@ -1135,6 +1151,15 @@ def c16(tier, seed):
         for t in n1[:3]:
             if t in L.toks('c1'):
                 L.do('dset c1 %s %d %d' % (t, rng.randrange(3), rng.randrange(5, 9)))
+        if i % 7 == 0 and n0:
+            # the receiver has answered basis lookups and has then been relabelled (consistently with the argument)
+            c0 = L.ex.objs['c0']
+            for t in L.toks('c0'):
+                L.do('q c0 swb ' + Lst([L.ex.T(x) for x in B.basisOf(c0, L.ex.name(t))]))
+            t = rng.choice(L.toks('c0'))
+            L.do('relabel c0 {%s:u985}' % t)
+            if t in L.toks('c1'):
+                L.do('relabel c1 {%s:u985}' % t)
         L.do('!snap c0 c1')
         if kind == 3:
             L.do('new c2')
